@@ -41,6 +41,7 @@ import (
 	gstate "github.com/ethereum/go-ethereum/core/state"
 	gvm "github.com/ethereum/go-ethereum/core/vm"
 	gparams "github.com/ethereum/go-ethereum/params"
+	"github.com/holiman/uint256"
 	"pgregory.net/rapid"
 
 	"github.com/kardiachain/go-kardia/configs"
@@ -202,7 +203,12 @@ type trace struct {
 	pcReq     int // precompile RequiredGas calls
 	pcRun     int // precompile Run calls
 	pcTargets [10]int
+	lastSelf  addr
+	oogAt     string
 }
+
+// peeker gives the step hook access to the i-th stack item from the top.
+type peeker interface{ peek(i int) word }
 
 func newTrace(w *world) *trace {
 	return &trace{topCreate: w.Create, galaxias: w.Galaxias, errKinds: map[string]int{}, addrs: map[addr]struct{}{},
@@ -233,7 +239,8 @@ func (tr *trace) addSlot(a addr, k word) {
 
 // step is called once per interpreter step (before the instruction executes), and once more when a frame faults.
 // errKind is "" for a normal step.
-func (tr *trace) step(depth int, op byte, gas, cost uint64, memLen, stackLen int, peek func(int) word, self addr, errKind string) {
+func (tr *trace) step(depth int, op byte, gas, cost uint64, memLen, stackLen int, pk peeker, self addr, errKind string) {
+	peek := pk.peek
 	for depth >= len(tr.lastOp) {
 		tr.lastOp = append(tr.lastOp, make([]byte, len(tr.lastOp))...)
 	}
@@ -248,7 +255,10 @@ func (tr *trace) step(depth int, op byte, gas, cost uint64, memLen, stackLen int
 		tr.lastOp[depth+1] = 0
 	}
 	tr.opSeen[op] = true
-	tr.addrs[self] = struct{}{}
+	if self != tr.lastSelf {
+		tr.addrs[self] = struct{}{}
+		tr.lastSelf = self
+	}
 	if depth > tr.maxDepth {
 		tr.maxDepth = depth
 	}
@@ -273,6 +283,9 @@ func (tr *trace) step(depth int, op byte, gas, cost uint64, memLen, stackLen int
 	if errKind != "" {
 		tr.errKinds[errKind]++
 		if errKind == "oog" {
+			if !tr.oog {
+				tr.oogAt = fmt.Sprintf("op=%02x depth=%d gas=%d cost=%d", op, depth, gas, cost)
+			}
 			tr.oog = true
 		}
 		return
@@ -344,33 +357,60 @@ func (tr *trace) nontrivial() bool {
 // Both VMs decide "precompile short of gas" between RequiredGas and Run without telling a tracer. The exported precompile
 // tables are therefore wrapped (delegating, nothing else changes): a RequiredGas call that is not followed by a Run call
 // is an out-of-gas precompile call.
-type pcProbe struct{ req, run int }
+type pcProbe struct {
+	req, run int
+	highS    int    // ECRECOVER inputs whose s is above n/2 and which the callee answered with an address
+	ecOut    string // concatenated ECRECOVER outputs of the run
+}
 
 var kProbe, gProbe pcProbe
 
 type kWrap struct {
 	in kvm.PrecompiledContract
+	ec bool // this is ECRECOVER
 }
 
-func (w kWrap) RequiredGas(in []byte) uint64     { kProbe.req++; return w.in.RequiredGas(in) }
-func (w kWrap) Run(in []byte) ([]byte, error)    { kProbe.run++; return w.in.Run(in) }
+func (w kWrap) RequiredGas(in []byte) uint64 { kProbe.req++; return w.in.RequiredGas(in) }
+func (w kWrap) Run(in []byte) ([]byte, error) {
+	kProbe.run++
+	out, err := w.in.Run(in)
+	if w.ec {
+		kProbe.ecOut += fmt.Sprintf("%x;", out)
+	}
+	return out, err
+}
 
 type gWrap struct {
 	in gvm.PrecompiledContract
+	ec bool
 }
 
-func (w gWrap) RequiredGas(in []byte) uint64  { gProbe.req++; return w.in.RequiredGas(in) }
-func (w gWrap) Run(in []byte) ([]byte, error) { gProbe.run++; return w.in.Run(in) }
+func (w gWrap) RequiredGas(in []byte) uint64 { gProbe.req++; return w.in.RequiredGas(in) }
+func (w gWrap) Run(in []byte) ([]byte, error) {
+	gProbe.run++
+	out, err := w.in.Run(in)
+	if w.ec {
+		gProbe.ecOut += fmt.Sprintf("%x;", out)
+		p := make([]byte, 128)
+		copy(p, in)
+		if len(out) > 0 && new(big.Int).SetBytes(p[96:128]).Cmp(secpHalfN) > 0 {
+			gProbe.highS++
+		}
+	}
+	return out, err
+}
+
+var secpHalfN = new(big.Int).Rsh(secpN, 1)
 
 func installPrecompileProbes() {
 	for a, p := range kvm.PrecompiledContractsV0 {
 		if _, done := p.(kWrap); !done {
-			kvm.PrecompiledContractsV0[a] = kWrap{p}
+			kvm.PrecompiledContractsV0[a] = kWrap{p, addr(a) == precompileAddr(1)}
 		}
 	}
 	for a, p := range gvm.PrecompiledContractsIstanbul {
 		if _, done := p.(gWrap); !done {
-			gvm.PrecompiledContractsIstanbul[a] = gWrap{p}
+			gvm.PrecompiledContractsIstanbul[a] = gWrap{p, addr(a) == precompileAddr(1)}
 		}
 	}
 }
@@ -413,14 +453,18 @@ func kErrKind(err error) string {
 	return "other:" + err.Error()
 }
 
-type kTracer struct{ tr *trace }
+type kTracer struct {
+	tr *trace
+	d  []uint256.Int
+}
+
+func (k *kTracer) peek(i int) word { return k.d[len(k.d)-1-i].Bytes32() }
 
 func (k *kTracer) CaptureStart(env *kvm.KVM, from, to common.Address, create bool, input []byte, gas uint64, value *big.Int) {
 }
 func (k *kTracer) hook(op kvm.OpCode, gas, cost uint64, scope *kvm.ScopeContext, depth int, err error) {
-	d := scope.Stack.Data()
-	k.tr.step(depth, byte(op), gas, cost, scope.Memory.Len(), len(d), func(i int) word { return d[len(d)-1-i].Bytes32() },
-		addr(scope.Contract.Address()), kErrKind(err))
+	k.d = scope.Stack.Data()
+	k.tr.step(depth, byte(op), gas, cost, scope.Memory.Len(), len(k.d), k, addr(scope.Contract.Address()), kErrKind(err))
 }
 func (k *kTracer) CaptureState(pc uint64, op kvm.OpCode, gas, cost uint64, scope *kvm.ScopeContext, rData []byte, depth int, err error) {
 	k.hook(op, gas, cost, scope, depth, err)
@@ -430,6 +474,9 @@ func (k *kTracer) CaptureFault(pc uint64, op kvm.OpCode, gas, cost uint64, scope
 	if kind := kErrKind(err); kind != "" {
 		k.tr.errKinds[kind]++
 		if kind == "oog" {
+			if !k.tr.oog {
+				k.tr.oogAt = fmt.Sprintf("op=%02x depth=%d gas=%d cost=%d (exec)", byte(op), depth, gas, cost)
+			}
 			k.tr.oog = true
 		}
 	}
@@ -450,6 +497,7 @@ type kOutcome struct {
 	created addr
 	st      *state.StateDB
 	tr      *trace
+	probe   pcProbe
 }
 
 func kBuildState(w *world) *state.StateDB {
@@ -492,7 +540,7 @@ func runKVM(w *world, traced bool) *kOutcome {
 		Coinbase: common.Address(coinbaseAddr), BlockHeight: new(big.Int).SetUint64(w.Height), Time: new(big.Int).Set(blockTime), GasLimit: blockGasCap}
 	vc := kvm.Config{}
 	if traced {
-		vc = kvm.Config{Debug: true, Tracer: &kTracer{o.tr}}
+		vc = kvm.Config{Debug: true, Tracer: &kTracer{tr: o.tr}}
 	}
 	env := kvm.NewKVM(ctx, kvm.TxContext{Origin: common.Address(originAddr), GasPrice: new(big.Int).Set(gasPrice)}, o.st, cfg, vc)
 	kProbe = pcProbe{}
@@ -506,7 +554,7 @@ func runKVM(w *world, traced bool) *kOutcome {
 		o.st.SetNonce(common.Address(originAddr), w.OriginNon+1)
 		o.ret, o.left, o.err = env.Call(kvm.AccountRef(common.Address(originAddr)), common.Address(uAddr(0)), w.Input, w.Gas, val)
 	}
-	o.tr.pcReq, o.tr.pcRun = kProbe.req, kProbe.run
+	o.tr.pcReq, o.tr.pcRun, o.probe = kProbe.req, kProbe.run, kProbe
 	if kProbe.req != kProbe.run || kErrKind(o.err) == "oog" {
 		o.tr.oog = true
 	}
@@ -557,15 +605,19 @@ func gErrKind(err error) string {
 	return "other:" + err.Error()
 }
 
-type gTracer struct{ tr *trace }
+type gTracer struct {
+	tr *trace
+	d  []*big.Int
+}
+
+func (g *gTracer) peek(i int) word { return word(gcommon.BigToHash(g.d[len(g.d)-1-i])) }
 
 func (g *gTracer) CaptureStart(from, to gcommon.Address, create bool, input []byte, gas uint64, value *big.Int) error {
 	return nil
 }
 func (g *gTracer) CaptureState(env *gvm.EVM, pc uint64, op gvm.OpCode, gas, cost uint64, memory *gvm.Memory, stack *gvm.Stack, rStack *gvm.ReturnStack, contract *gvm.Contract, depth int, err error) error {
-	d := stack.Data()
-	g.tr.step(depth, byte(op), gas, cost, memory.Len(), len(d), func(i int) word { return word(gcommon.BigToHash(d[len(d)-1-i])) },
-		addr(contract.Address()), gErrKind(err))
+	g.d = stack.Data()
+	g.tr.step(depth, byte(op), gas, cost, memory.Len(), len(g.d), g, addr(contract.Address()), gErrKind(err))
 	return nil
 }
 func (g *gTracer) CaptureFault(env *gvm.EVM, pc uint64, op gvm.OpCode, gas, cost uint64, memory *gvm.Memory, stack *gvm.Stack, rStack *gvm.ReturnStack, contract *gvm.Contract, depth int, err error) error {
@@ -588,6 +640,7 @@ type gOutcome struct {
 	created addr
 	st      *gstate.StateDB
 	tr      *trace
+	probe   pcProbe
 }
 
 func gBuildState(w *world) *gstate.StateDB {
@@ -626,7 +679,7 @@ func runGeth(w *world) *gOutcome {
 		Origin:      gcommon.Address(originAddr), GasPrice: new(big.Int).Set(gasPrice), Coinbase: gcommon.Address(coinbaseAddr),
 		GasLimit: blockGasCap, BlockNumber: new(big.Int).SetUint64(w.Height), Time: new(big.Int).Set(blockTime), Difficulty: big.NewInt(0),
 	}
-	env := gvm.NewEVM(ctx, o.st, gChainCfg, gvm.Config{Debug: true, Tracer: &gTracer{o.tr}})
+	env := gvm.NewEVM(ctx, o.st, gChainCfg, gvm.Config{Debug: true, Tracer: &gTracer{tr: o.tr}})
 	gProbe = pcProbe{}
 	val := new(big.Int).SetUint64(w.Value)
 	if w.Create {
@@ -637,7 +690,7 @@ func runGeth(w *world) *gOutcome {
 		o.st.SetNonce(gcommon.Address(originAddr), w.OriginNon+1)
 		o.ret, o.left, o.err = env.Call(gvm.AccountRef(gcommon.Address(originAddr)), gcommon.Address(uAddr(0)), w.Input, w.Gas, val)
 	}
-	o.tr.pcReq, o.tr.pcRun = gProbe.req, gProbe.run
+	o.tr.pcReq, o.tr.pcRun, o.probe = gProbe.req, gProbe.run, gProbe
 	if gProbe.req != gProbe.run || gErrKind(o.err) == "oog" {
 		o.tr.oog = true
 	}
@@ -790,11 +843,13 @@ func firstDiff(a, b []snapLine) (field, la, lb string, differ bool) {
 
 // ---------------------------------------------------------------- oracles
 
-// checkWorld runs robustness + determinism (KVM alone) and, if diff is true, the differential against the reference VM.
-// It returns both traced outcomes for the callers that add structural expectations.
+// checkWorld runs robustness + determinism + the top-frame structural clause (KVM alone) and, if diff is true, the
+// differential against the reference VM. It returns both traced outcomes (nil, nil when the case hit a listed known
+// finding and was set aside) for the callers that add structural expectations.
 func checkWorld(t ev.TB, w *world, diff bool, classes *[]string) (*kOutcome, *gOutcome) {
 	ct := w.text
 	var k1, k2 *kOutcome
+	var g *gOutcome
 	// (1) robustness: a Go panic anywhere under Call/Create is a violation (key panic:<function>)
 	ev.Guard(t, ct, func() { k1 = runKVM(w, true) })
 	ev.Guard(t, ct, func() { k2 = runKVM(w, false) })
@@ -806,15 +861,23 @@ func checkWorld(t ev.TB, w *world, diff bool, classes *[]string) (*kOutcome, *gO
 			return nil, nil
 		}
 	}
-	if k1.err != nil && k1.err != kvm.ErrExecutionReverted && k1.left != 0 && kErrKind(k1.err) != "depth" && kErrKind(k1.err) != "insufficient-balance" {
-		// every failure other than REVERT consumes all gas (interpreter.go: "revert-and-consume-all-gas")
-		if ev.Violation(t, "robust.failure-keeps-gas", ct(), "err=%v but leftover gas %d", k1.err, k1.left) {
-			return nil, nil
-		}
+	if diff {
+		g = runGeth(w)
 	}
-	// determinism: the traced run and the production-configuration run agree on everything observable
-	ob := observe(k1.tr)
+	// all observations are taken before any IntermediateRoot call (which finalises and deletes accounts)
+	var ob *observed
+	if diff {
+		ob = observe(k1.tr, g.tr)
+	} else {
+		ob = observe(k1.tr)
+	}
 	s1, s2 := snapshot(kView{k1.st}, ob), snapshot(kView{k2.st}, ob)
+	var sg []snapLine
+	if diff {
+		sg = snapshot(gView{g.st}, ob)
+	}
+
+	// determinism: the traced run and the production-configuration run (no tracer) agree on everything observable
 	if !bytes.Equal(k1.ret, k2.ret) || k1.left != k2.left || fmt.Sprint(k1.err) != fmt.Sprint(k2.err) || k1.created != k2.created {
 		if ev.Violation(t, "determinism.result", ct(), "same input twice: ret %x/%x left %d/%d err %v/%v", k1.ret, k2.ret, k1.left, k2.left, k1.err, k2.err) {
 			return nil, nil
@@ -825,41 +888,64 @@ func checkWorld(t ev.TB, w *world, diff bool, classes *[]string) (*kOutcome, *gO
 			return nil, nil
 		}
 	}
-	var r1, r2 common.Hash
-	ev.Guard(t, ct, func() { r1 = k1.st.IntermediateRoot(true); r2 = k2.st.IntermediateRoot(true) })
-	if r1 != r2 {
-		if ev.Violation(t, "determinism.state-root", ct(), "same input twice: post-state roots %x vs %x", r1, r2) {
-			return nil, nil
-		}
-	}
 	// structural, all sources: a failed top-level frame leaves no state change and no log
 	if k1.err != nil {
 		pre := kBuildState(w)
-		if !w.Create {
+		if k := kErrKind(k1.err); !w.Create || (k != "depth" && k != "insufficient-balance") {
+			// the sender nonce bump precedes the frame (state transition for calls, KVM.create for creations)
 			pre.SetNonce(common.Address(originAddr), w.OriginNon+1)
-		} else if k := kErrKind(k1.err); k != "depth" && k != "insufficient-balance" {
-			pre.SetNonce(common.Address(originAddr), w.OriginNon+1) // the creator's nonce bump precedes the frame
 		}
-		if f, a, b, d := firstDiff(snapshot(kView{k1.st}, ob), snapshot(kView{pre}, ob)); d {
+		if f, a, b, d := firstDiff(s1, snapshot(kView{pre}, ob)); d {
 			if ev.Violation(t, "struct.failed-top-frame-left-trace."+f, ct(), "top-level frame failed (%v) but state differs from pre-state: after %q, before %q", k1.err, a, b) {
 				return nil, nil
 			}
 		}
 	}
 	*classes = append(*classes, "kvm-err:"+orOK(kErrKind(k1.err)))
+	var r1, r2 common.Hash
+	roots := func() bool {
+		ev.Guard(t, ct, func() { r1 = k1.st.IntermediateRoot(true); r2 = k2.st.IntermediateRoot(true) })
+		if r1 != r2 {
+			if ev.Violation(t, "determinism.state-root", ct(), "same input twice: post-state roots %x vs %x", r1, r2) {
+				return false
+			}
+		}
+		return true
+	}
 	if !diff {
+		if !roots() {
+			return nil, nil
+		}
 		return k1, nil
 	}
 
 	// (2) differential against go-ethereum v1.9.15
-	g := runGeth(w)
 	switch {
 	case k1.tr.oog || g.tr.oog:
 		*classes = append(*classes, "diff-skipped:out-of-gas")
+		if !roots() {
+			return nil, nil
+		}
 		return k1, g
 	case k1.tr.excluded != "" || g.tr.excluded != "":
-		*classes = append(*classes, "diff-skipped:"+k1.tr.excluded+g.tr.excluded)
+		ex := k1.tr.excluded
+		if ex == "" {
+			ex = g.tr.excluded
+		}
+		*classes = append(*classes, "diff-skipped:"+ex)
+		if !roots() {
+			return nil, nil
+		}
 		return k1, g
+	}
+	if g.probe.highS > 0 {
+		// known deviation: the KVM's ECRECOVER precompile rejects signatures with s > n/2, the reference accepts them
+		if k1.probe.ecOut != g.probe.ecOut {
+			if ev.Violation(t, keyEcrecoverHighS, ct(), "ECRECOVER on a signature with s > n/2: KVM outputs %q, reference %q", k1.probe.ecOut, g.probe.ecOut) {
+				*classes = append(*classes, "diff-skipped:known-ecrecover-high-s")
+				return nil, nil
+			}
+		}
 	}
 	*classes = append(*classes, "diff-compared")
 	if (k1.err != nil) != (g.err != nil) {
@@ -882,13 +968,15 @@ func checkWorld(t ev.TB, w *world, diff bool, classes *[]string) (*kOutcome, *gO
 			return nil, nil
 		}
 	}
-	ob2 := observe(k1.tr, g.tr)
-	if f, a, b, d := firstDiff(snapshot(kView{k1.st}, ob2), snapshot(gView{g.st}, ob2)); d {
+	if f, a, b, d := firstDiff(s1, sg); d {
 		if ev.Violation(t, "diff."+f, ct(), "post-state differs: KVM %q, reference %q", a, b) {
 			return nil, nil
 		}
 	}
-	// r1 was computed above (IntermediateRoot finalises: suicided and touched-empty accounts are deleted on both sides)
+	if !roots() {
+		return nil, nil
+	}
+	// IntermediateRoot finalises: suicided and touched-empty accounts are deleted on both sides
 	if gr := g.st.IntermediateRoot(true); word(gr) != word(r1) {
 		if ev.Violation(t, "diff.state-root", ct(), "post-state root KVM %x, reference %x (no observed field differs)", r1, gr) {
 			return nil, nil
@@ -896,6 +984,8 @@ func checkWorld(t ev.TB, w *world, diff bool, classes *[]string) (*kOutcome, *gO
 	}
 	return k1, g
 }
+
+const keyEcrecoverHighS = "diff.precompile.ecrecover-rejects-high-s"
 
 func orOK(s string) string {
 	if s == "" {
@@ -917,6 +1007,7 @@ func TestKVMPrograms(t *testing.T) {
 		}
 		nt := k.tr.nontrivial() && g != nil && g.tr.nontrivial() && !k.tr.oog && !g.tr.oog && k.tr.excluded == "" && g.tr.excluded == ""
 		classes = append(classes, shapeClasses(k.tr)...)
+		classes = append(classes, "main:"+w.MainSrc+":"+orOK(kErrKind(k.err)))
 		ev.Case(nt, w.text(), classes...)
 		if nt {
 			c := "program:" + w.MainSrc
